@@ -14,7 +14,12 @@ from families.loadcommon import *
 PROPERTY = "C15"
 FAMILY = "load"
 LEAN_MODULE = "ElfioVerif.Props.C15"
-THEOREMS = ["ElfioVerif.C15.isolatedRead_state_independent"]
+THEOREMS = ["ElfioVerif.C15.isolatedRead_state_independent", "ElfioVerif.C15.isolatedRead_depends_on_data_only",
+            "ElfioVerif.C15.isolatedRead_flags_or",
+            "ElfioVerif.C15.secGetData_lazy_eq_eager", "ElfioVerif.C15.freeData_getData",
+            "ElfioVerif.C15.interleaving_eq",
+            "ElfioVerif.C15.segGetData_lazy_eq_eager", "ElfioVerif.C15.seg_interleaving_eq",
+            "ElfioVerif.C15.lazy_load_unreadable_segment_witness"]
 SITES = ["conv", "load_s", "sec32_load", "sec64_load", "seg32_load", "seg64_load"]
 RULE = ("images: encoder-built well-formed (4 configurations), small bundled examples, and mutated images "
         "(tools/elfspec.mutate incl. truncation) — eager object vs lazy object under a random interleaving of "
